@@ -5,7 +5,9 @@ import argparse
 import importlib
 import json
 import os
+import signal
 import sys
+import time
 import traceback
 
 from harness.common import Ctx, quiet_pynenc
@@ -51,5 +53,71 @@ def main() -> int:
     return ctx.finish()
 
 
+def _become_subreaper() -> None:
+    """processes orphaned by a dying descendant (a worker of a runner process that was killed on purpose) are re-parented to this
+    process instead of init, so that the sweep at the end finds them"""
+    try:
+        import ctypes
+
+        ctypes.CDLL(None, use_errno=True).prctl(36, 1, 0, 0, 0)  # PR_SET_CHILD_SUBREAPER
+    except Exception:  # noqa: BLE001
+        pass
+
+
+def _kill_descendants() -> int:
+    """nothing started by a check outlives it (on a changed tree a runner may not stop when told to)"""
+    me, killed = os.getpid(), 0
+    for _ in range(5):
+        ppid: dict[int, int] = {}
+        for d in os.listdir("/proc"):
+            if d.isdigit():
+                try:
+                    stat = open(f"/proc/{d}/stat").read()
+                    rest = stat[stat.rindex(")") + 2:].split()
+                    if rest[0] != "Z":
+                        ppid[int(d)] = int(rest[1])
+                except (OSError, ValueError, IndexError):
+                    pass
+        desc: set[int] = set()
+        frontier = [me]
+        while frontier:
+            p = frontier.pop()
+            for c, pp in ppid.items():
+                if pp == p and c not in desc:
+                    desc.add(c)
+                    frontier.append(c)
+        if not desc:
+            break
+        for c in desc:
+            try:
+                os.kill(c, signal.SIGKILL)
+                killed += 1
+            except OSError:
+                pass
+        time.sleep(0.05)
+        try:
+            while os.waitpid(-1, os.WNOHANG)[0]:
+                pass
+        except OSError:
+            pass
+    return killed
+
+
+def _terminated(signum: int, frame: object) -> None:
+    raise SystemExit(2)
+
+
 if __name__ == "__main__":
-    sys.exit(main())
+    _become_subreaper()
+    try:
+        signal.signal(signal.SIGTERM, _terminated)
+    except Exception:  # noqa: BLE001
+        pass
+    rc = 2
+    try:
+        rc = main()
+    finally:
+        sys.stdout.flush()
+        sys.stderr.flush()
+        _kill_descendants()
+    sys.exit(rc)
